@@ -223,7 +223,8 @@ Lemma splice_api_step A C n i C1 : args_ok A → closed (c_g C) → n ∈ dom (c
     c_g C1 = spliced_gen g n q (pin inst (ra_q A)) pins ∧ c_bbs C1 = <[inst := ra_ff A]> (c_bbs C) ∧
     (∀ x, x ∈ dom pins ↔ ∃ p, p ∈ (ra_ins A ++ ra_outs A)%list ∧ x = pin inst p) ∧
     (∀ p, p ∈ ra_ins A → ∃ fi, pins !! pin inst p = Some (mk_node BbIn false fi) ∧
-            (p = ra_d A ∨ (∃ v, (p, v) ∈ ra_other A) → fi ≠ ∅) ∧ size fi ≤ 1) ∧
+            (p = ra_d A ∨ (∃ v, (p, v) ∈ ra_other A) → fi ≠ ∅) ∧ size fi ≤ 1 ∧
+            fi ⊆ {[n]} ∪ list_to_set (snd <$> ra_other A)) ∧
     (∀ p, p ∈ ra_outs A → pins !! pin inst p = Some (mk_node BbOut false ∅)).
 Proof.
   intros [Hins Houts Hdisj Hd Hqo Hknd Hkeys] Hcl Hn Hvals. unfold splice_api. cbv zeta.
@@ -294,14 +295,15 @@ Proof.
   { intros x. rewrite Dform. pose proof (dset_tail_sub inst (ra_ff A) (ra_other A) x (λ kv Hkv, proj1 (Hkeys kv Hkv))) as Hs.
     destruct (decide (x = pin inst (ra_d A))); destruct (decide (x ∈ [q])); clear -Hs; set_solver. }
   assert (Din : ∀ p, p ∈ ra_ins A → D (pin inst p) ⊆ dom g ∧ size (D (pin inst p)) ≤ 1 ∧
-            (p = ra_d A ∨ (∃ v, (p, v) ∈ ra_other A) → D (pin inst p) ≠ ∅)).
+            (p = ra_d A ∨ (∃ v, (p, v) ∈ ra_other A) → D (pin inst p) ≠ ∅) ∧
+            D (pin inst p) ⊆ {[n]} ∪ list_to_set (snd <$> ra_other A)).
   { intros p Hp. assert (Hnq : pin inst p ∉ [q]).
     { intros E%elem_of_list_singleton. eapply (Hq_notpin p BbIn); [|done]. apply Hpts. by left. }
     rewrite Dform, (decide_False (P := pin inst p ∈ [q])) by done.
     destruct (decide (p = ra_d A)) as [->|Hpd].
     - rewrite decide_True by done. rewrite dset_tail_empty.
       2:{ intros kv Hkv. destruct (Hkeys kv Hkv) as [Hki Hkd]. split; [done|]. intros E%pin_port_inj. done. }
-      split_and!; [clear -Hn; set_solver| |intros _; clear; set_solver].
+      split_and!; [clear -Hn; set_solver| |intros _; clear; set_solver|clear; set_solver].
       replace (list_to_set [n] ∪ (∅ ∪ ∅)) with ({[n]} : gset string) by (apply leibniz_equiv; clear; set_solver). by rewrite size_singleton.
     - rewrite decide_False by (intros E%pin_port_inj; done).
       (* at most one entry of other_flop_io names this port *)
@@ -328,7 +330,9 @@ Proof.
       { intros kv Hkv. split; [by apply Hkeys|by apply Hvals]. }
       replace (∅ ∪ (∅ ∪ dset inst (ra_ff A) (other_conns (ra_other A)) (pin inst p))) with (dset inst (ra_ff A) (other_conns (ra_other A)) (pin inst p))
         by (apply leibniz_equiv; clear; set_solver).
-      split_and!; [done|done|]. intros [?|Hex]; [done|by apply T3]. }
+      split_and!; [done|done| |].
+      + intros [?|Hex]; [done|by apply T3].
+      + pose proof (dset_tail_sub inst (ra_ff A) (ra_other A) (pin inst p) (λ kv Hkv, proj1 (Hkeys kv Hkv))) as Hs. clear -Hs. set_solver. }
   (* the pin nodes after the connections *)
   set (pins := map_imap (λ x i0, Some (upd_fi (λ s, s ∪ D x) i0)) PM).
   assert (Lp : ∀ x, pins !! x = upd_fi (λ s, s ∪ D x) <$> PM !! x).
@@ -345,7 +349,7 @@ Proof.
     + intros x i0 Hx. rewrite Lp in Hx. destruct (PM !! x) as [j|] eqn:Hj; [|done]. simpl in Hx. simplify_eq.
       apply pin_map_lookup in Hj as (p & t & Hpt & -> & ->). simpl. split; [done|].
       apply Hpts in Hpt as [[Hp ->]|[Hp ->]].
-      * left. split; [done|]. destruct (Din p Hp) as (Hs & _ & _). clear -Hs. set_solver.
+      * left. split; [done|]. destruct (Din p Hp) as (Hs & _ & _ & _). clear -Hs. set_solver.
       * right. split; [done|]. rewrite (Dout p Hp). clear. set_solver.
   - (* the graph *) apply map_eq. intros x. rewrite Lg. unfold spliced_gen.
     destruct (PM !! x) as [i0|] eqn:Hx.
@@ -362,10 +366,11 @@ Proof.
     + intros [i0 Hx]. apply pin_map_lookup in Hx as (p & t & Hpt & -> & _). exists p. split; [|done].
       apply Hpts in Hpt as [[? _]|[? _]]; apply elem_of_app; eauto.
     + intros (p & Hp & ->). apply elem_of_app in Hp as [Hp|Hp]; [rewrite HPMin|rewrite HPMout]; eauto.
-  - intros p Hp. destruct (Din p Hp) as (D1 & D2 & D3). exists (∅ ∪ D (pin inst p)). rewrite Lp, (HPMin p Hp). simpl.
-    split_and!; [done| |].
+  - intros p Hp. destruct (Din p Hp) as (D1 & D2 & D3 & D4). exists (∅ ∪ D (pin inst p)). rewrite Lp, (HPMin p Hp). simpl.
+    split_and!; [done| | |].
     + intros H. apply D3 in H. clear -H. set_solver.
-    + replace (∅ ∪ D (pin inst p)) with (D (pin inst p)) by (apply leibniz_equiv; clear; set_solver). done.
+    + by rewrite (left_id_L ∅ (∪)).
+    + by rewrite (left_id_L ∅ (∪)).
   - intros p Hp. rewrite Lp, (HPMout p Hp). simpl. f_equal. apply ninfo_eq; simpl; [done|done|]. rewrite (Dout p Hp). clear. set_solver.
 Qed.
 
